@@ -15,7 +15,8 @@ RULE = ("index: every Noll j in 1..10^6 (quick) / 1..10^7 (thorough) against an 
         "orthonormality: Gram matrices of the first 28/45 modes on the ladder N=32..256 (trend check). gradients: "
         "makegammas(nzrad<=7) vs 5-point finite differences of the generated modes on N=256. Distinct = canonical JSON."
         " Also: positional == keyword calls, zernike_noll(j, N, rot) == zernike_nm(n, m, N, rot), rotated mode keeps cos(rot) or cos(m rot) of itself; 66-130 coefficients on 370-1024 pixel grids (> 2^24 mode samples) against the mode-by-mode sum."
-        " Law extreme_orders_support: radial orders 400 .. 1500 vanish outside the pupil, are finite and bounded by their peak.")
+        " Law extreme_orders_support: radial orders 400 .. 1500 vanish outside the pupil, are finite and bounded by their peak."
+        " Law threads: zernike_nm / zernikeArray / phaseFromZernikes on one grid size.")
 ASSUMPTIONS = ["x = last array axis, y = first axis, unit = pupil radius", "p2v peak-to-valley is taken over the whole array (the code's and the design's convention), piston skipped",
                "rotation: a rotated mode must be a unit-norm combination of the (cos, sin) pair of the same (n,|m|)"]
 
